@@ -337,6 +337,35 @@ theorem quiesces_without_further_input (cfg : Cfg) (hmax : 1 ≤ cfg.maxAttempts
   obtain ⟨es, s', h1, h2, h3, -, h5⟩ := drains cfg hmax s hr (fresh_none_outside_batchMessages cfg s hr hlock)
   exact ⟨es, s', h1, h2, h3, h5⟩
 
+/-- **everything_completed_when_close_returns** — Close can return only when every batch the writer ever created is
+completed: all senders have exited, an exited sender's queue is empty and closed, a closed queue's writer has nothing
+attached or pending, and a batch that is not completed would have to be in one of these places (`no_batch_dropped`).
+So nothing accepted is left unsent behind a returned Close. -/
+theorem everything_completed_when_close_returns (cfg : Cfg) (hmax : 1 ≤ cfg.maxAttempts) (s s' : State) (hr : Reachable cfg s)
+    (hs : step cfg s .closeReturn = some s') :
+    ∀ b B, s.batches b = some B → ∃ code, B.done = some code := by
+  simp only [step] at hs
+  repeat' split at hs
+  all_goals (first | (cases hs; done) | skip)
+  rename_i hg
+  obtain ⟨-, -, -, hall⟩ := hg
+  intro b B hB
+  cases hd : B.done with
+  | some code => exact ⟨code, rfl⟩
+  | none =>
+    exfalso
+    obtain ⟨P, hP, hmem⟩ := invLive cfg s hr b B hB hd
+    have hlisted := (invSched cfg s hr).pwListed B.pw P hP
+    rw [List.all_eq_true] at hall
+    have hex := hall B.pw hlisted
+    rw [hP] at hex
+    have hexited : P.sender = .exited := by simpa using hex
+    obtain ⟨hq, hqc⟩ := ((invProg cfg hmax s hr).pw B.pw P hP).exitedEmpty hexited
+    obtain ⟨-, hcurr, hpend⟩ := (invClosedQ cfg s hr).closedQ B.pw P hP hqc
+    have : P.pipe = [] := by simp [PW.pipe, hexited, Sender.batch?, hq, hcurr, hpend]
+    rw [this] at hmem
+    cases hmem
+
 /-! ### the decision logic of the model is the one in the source (regenerated on every run by go/extract/writer) -/
 
 /-- every piece of decision logic the theorems below are stated over could be read from the source -/
